@@ -19,7 +19,7 @@ import (
 )
 
 var types = []string{"Plain", "OptNull", "Tuple", "Join", "MapSI", "ListS", "UnionK", "UnionKinded", "UnionSP",
-	"MapSU", "ListU", "MapSP", "ListT", "MapSN", "ListN", "OptComp", "OptMore", "UnionKinded2", "ListNP", "AllOpt", "Swap", "OptOne", "ListOO", "MapOO", "Outer"}
+	"MapSU", "ListU", "MapSP", "ListT", "MapSN", "ListN", "OptComp", "OptMore", "UnionKinded2", "ListNP", "AllOpt", "Swap", "LeadOpt", "TupleOpt", "UnionSP2", "TupleON", "OptOne", "ListOO", "MapOO", "Outer"}
 
 type outcome struct {
 	err      error
